@@ -5,8 +5,8 @@ Import ListNotations.
 Open Scope Z_scope.
 Ltac Zify.zify_post_hook ::= Z.to_euclidean_division_equations.
 
-Lemma t2_capacity_layout m cap : t2_capacity m = Some cap -> exists L, t2_read (view m) = Ok (Some L) /\ l_cap L = cap.
-Proof. unfold t2_capacity. destruct (t2_read (view m)) as [[L|]| | |]; try discriminate. intro H. injection H as <-. eauto. Qed.
+Lemma t2_capacity_layout m cap : t2_capacity m = Some cap -> exists L, t2_reader (view m) = Ok (Some L) /\ l_cap L = cap.
+Proof. unfold t2_capacity. destruct (t2_reader (view m)) as [[L|]| | |]; try discriminate. intro H. injection H as <-. eauto. Qed.
 Lemma wfL_capacity m L cap : wfL m L -> t2_capacity m = Some cap -> l_cap L = cap.
 Proof. intros H Hc. destruct (t2_capacity_layout m cap Hc) as (L' & Hr' & Hc'). destruct H as (Hr & _). congruence. Qed.
 
